@@ -17,8 +17,8 @@ package main
 
 import (
 	"fmt"
-	"go/types"
 	"sort"
+	"strings"
 	"sync"
 
 	"golang.org/x/tools/go/ssa"
@@ -36,6 +36,7 @@ type loopCtx struct {
 	info        *loopInfo
 	discover    *discoverAcc
 	base        *State
+	entryPos    map[int]*Term
 }
 
 type discoverAcc struct {
@@ -149,6 +150,9 @@ func (x *Exec) pcOf(st *State) []*Term {
 // loopCut handles the LoopInv call at instruction i of block b.
 func (x *Exec) loopCut(fr *Frame, st *State, call *ssa.Call, b *ssa.BasicBlock, i int) []Outcome {
 	c := x.c
+	if x.mergedDepth > 0 {
+		return abortOut(st, "loop executed inside a specification expression (quantifier body, Eq of functions): bind the result of %s outside the quantifier", fr.fn)
+	}
 	li := innermostLoop(fr.fn, b)
 	if li == nil {
 		return abortOut(st, "LoopInv outside a loop in %s", fr.fn)
@@ -165,6 +169,15 @@ func (x *Exec) loopCut(fr *Frame, st *State, call *ssa.Call, b *ssa.BasicBlock, 
 		lc = &loopCtx{info: li}
 		fr.loopsActive[call] = lc
 	}
+	if lc.entryPos == nil {
+		lc.entryPos = map[int]*Term{}
+		for k, v := range st.iterPos {
+			lc.entryPos[k] = v
+		}
+	}
+	savedLoop := x.curLoop
+	x.curLoop = lc
+	defer func() { x.curLoop = savedLoop }()
 	evalMeasure := func(s *State) *Term {
 		v, _ := x.applyMerged(s, decClo, nil)
 		return v
@@ -183,7 +196,7 @@ func (x *Exec) loopCut(fr *Frame, st *State, call *ssa.Call, b *ssa.BasicBlock, 
 			f2 := fr.clone()
 			s2 := st.clone()
 			x.havocLoop(f2, s2, li, acc)
-			lc2 := &loopCtx{info: li, phase: 3, discover: acc, base: s2.clone()}
+			lc2 := &loopCtx{info: li, phase: 3, discover: acc, base: s2.clone(), entryPos: lc.entryPos}
 			f2.loopsActive = cloneLoops(fr.loopsActive)
 			f2.loopsActive[call] = lc2
 			f2.prev = nil
@@ -336,10 +349,14 @@ func (x *Exec) havocLoop(fr *Frame, st *State, li *loopInfo, acc *discoverAcc) {
 		}
 		v := c.Fresh(fmt.Sprintf("loopcell%d", id), old.Sort)
 		st.cells[id] = v
-		if t := x.cellType[id]; t != nil {
-			if _, isArr := t.(*types.Array); !isArr || t.(*types.Array).Len() > 0 {
-				x.assumeFact(st, x.resultInv(t, v))
-			}
+		if t := x.cellType[id]; t != nil && c.SortOf(t) == v.Sort {
+			x.assumeFact(st, x.resultInv(t, v))
+		}
+		if v.Sort.Kind == KData && len(v.Sort.Fields) == 3 && strings.HasPrefix(v.Sort.Name, "MapVal_") {
+			x.assumeFact(st, c.Cmp("<=", c.IntLit(0), c.Sel(v, 2)))
+		}
+		if v.Sort.Kind == KData && strings.HasPrefix(v.Sort.Name, "RangeSt_") {
+			x.assumeFact(st, c.Cmp("<=", c.IntLit(0), c.Sel(v, 1)))
 		}
 	}
 	for _, k := range sortedKeys(acc.heaps) {
